@@ -14,8 +14,8 @@ text = e.process("units/%s.vt" % unit)
 out = "/tmp/w/vunit_%s.rs" % unit
 open(out, "w").write(text)
 for p in emit.check_faithful(e, text): print("UNFAITHFUL", p)
-ext = {"sta": {"strobe_rs": arts["strobe_rs"], "real_sharks": arts["star_sharks"], "ff": arts["ff"], "subtle": arts["subtle"], "rand": arts["rand"], "rand_core": arts["rand_core"]},
-       "ppo": {k: arts[k] for k in ("strobe_rs", "curve25519_dalek", "rand", "rand_core", "serde", "bincode") if k in arts}}[unit]
+import driver
+ext = {k: arts[v] for k, v in driver.UNITS[unit]["externs"].items()}
 r = runner.run_verus(out, ext, deps, extra=sys.argv[3:])
 for d in r["diags"]:
     if d.get("level") in ("error",) or (d.get("level") == "warning" and os.environ.get("W")):
